@@ -272,14 +272,21 @@ SPEC = {
             "file": "src/config/environment.rs",
             "lean_imports": ["Rough.Gen.ConfigExt"],
             "params": [("ENV", "List (String × String)"), ("NCPU", "Nat")],
-            "functions": {"EnvironmentConfig::new": {}},
+            "keep_externs": True,
+            "functions": dict([("EnvironmentConfig::new", {})] + [("EnvironmentConfig@ServerConfig::" + g, {"params": []}) for g in
+                              ["port", "interface", "seed", "batch_size", "status_interval", "kms_protection", "health_check_port",
+                               "client_stats_enabled", "persistence_directory", "fault_percentage", "num_workers"]]),
         },
         "FileConfig": {
             "file": "src/config/file.rs",
             "imports": ["EnvConfig"],      # (shares the module-local constant DEFAULT_STATUS_INTERVAL)
             "lean_imports": ["Rough.Gen.ConfigExt"],
             "params": [("YAML", "List Gen.YamlDoc"), ("NCPU", "Nat")],
-            "functions": {"FileConfig::new": {"local_types": {"key": "Yaml", "value": "Yaml", "other": "Yaml", "infile": "File"}}},
+            "keep_externs": True,
+            "functions": dict([("FileConfig::new", {"local_types": {"key": "Yaml", "value": "Yaml", "other": "Yaml", "infile": "File"}})] +
+                              [("FileConfig@ServerConfig::" + g, {"params": []}) for g in
+                               ["port", "interface", "seed", "batch_size", "status_interval", "kms_protection", "health_check_port",
+                                "client_stats_enabled", "persistence_directory", "fault_percentage", "num_workers"]]),
         },
         "Config": {
             "file": "src/config/mod.rs",
